@@ -442,17 +442,39 @@ func (ps *parser) typeText() string {
 	return sb.String()
 }
 
+var ghostSetRe = regexp.MustCompile(`^ghost\((.+),\s*"([A-Za-z_][A-Za-z0-9_]*)"\)\s*=\s*(.+)$`)
+
+// parseGhostSet parses `ghost(x, "name") = E`.
+func parseGhostSet(text string) (*Clause, error) {
+	m := ghostSetRe.FindStringSubmatch(strings.TrimSpace(text))
+	if m == nil {
+		return nil, fmt.Errorf("bad ghost assignment %q (expected ghost(x, \"name\") = E)", text)
+	}
+	obj, err := parseExpr(m[1])
+	if err != nil {
+		return nil, err
+	}
+	val, err := parseExpr(m[3])
+	if err != nil {
+		return nil, err
+	}
+	return &Clause{Kind: "setghost", Text: text, GhostObj: obj, GhostName: m[2], E: val}, nil
+}
+
 // ---------- contracts ----------
 
 type Clause struct {
-	Kind  string // requires, ensures, invariant, decreases, modifies, assume, assert
-	Loop  int    // for loop clauses (1-based)
-	Ret   int    // ensures clauses restricted to the Ret-th return statement (source order), 0 = all
-	Props []string
-	Text  string
-	E     Expr
-	Line  int
-	File  string
+	Kind      string // requires, ensures, invariant, decreases, modifies, assume, assert, setghost
+	GhostObj  Expr   // setghost: the object whose ghost field is assigned
+	GhostName string // setghost: the field
+	Callee    string // callassert: name of the called function
+	Loop      int    // for loop clauses (1-based)
+	Ret       int    // ensures clauses restricted to the Ret-th return statement (source order), 0 = all
+	Props     []string
+	Text      string
+	E         Expr
+	Line      int
+	File      string
 }
 
 type Param struct{ Name, Type string }
@@ -897,13 +919,23 @@ func (ss *SpecSet) parseSpecText(file, pkgPath, text string) {
 				continue
 			}
 			fs := strings.SplitN(rest, " ", 3)
-			if len(fs) < 3 || (fs[1] != "ensures" && fs[1] != "use") {
+			if len(fs) < 3 || (fs[1] != "ensures" && fs[1] != "use" && fs[1] != "set") {
 				errf(ln, "bad return clause")
 				continue
 			}
 			n, err := strconv.Atoi(fs[0])
 			if err != nil {
 				errf(ln, "bad return clause %q", rest)
+				continue
+			}
+			if fs[1] == "set" {
+				cl, err := parseGhostSet(fs[2])
+				if err != nil {
+					errf(ln, "%v", err)
+					continue
+				}
+				cl.Ret, cl.Props, cl.Line, cl.File = n, props, ln+1, file
+				cur.Clauses = append(cur.Clauses, cl)
 				continue
 			}
 			cl := &Clause{Kind: fs[1], Ret: n, Text: fs[2], Props: props, Line: ln + 1, File: file}
@@ -960,6 +992,37 @@ func (ss *SpecSet) parseSpecText(file, pkgPath, text string) {
 					}
 				}
 			}
+		case "call":
+			// //@ call F requires E : at every call of F in this function the condition E holds, where
+			// arg0, arg1, ... are the call's arguments and the function's own variables keep their names
+			finish()
+			if cur == nil {
+				errf(ln, "call clause outside a contract")
+				continue
+			}
+			fs := strings.SplitN(rest, " ", 3)
+			if len(fs) < 3 || fs[1] != "requires" {
+				errf(ln, "bad call clause (expected: call F requires E)")
+				continue
+			}
+			cl := &Clause{Kind: "callassert", Callee: fs[0], Text: fs[2], Props: props, Line: ln + 1, File: file}
+			cur.Clauses = append(cur.Clauses, cl)
+			last = cl
+		case "set":
+			// //@ set ghost(x, "name") = E : ghost assignment made at every return (before the
+			// postconditions and type invariants are checked)
+			finish()
+			if cur == nil {
+				errf(ln, "set outside a contract")
+				continue
+			}
+			cl, err := parseGhostSet(rest)
+			if err != nil {
+				errf(ln, "%v", err)
+				continue
+			}
+			cl.Props, cl.Line, cl.File = props, ln+1, file
+			cur.Clauses = append(cur.Clauses, cl)
 		case "use":
 			// in a lemma: an instance of an axiom or of another lemma, stated explicitly
 			finish()
